@@ -168,6 +168,7 @@ def cinstrJ : CInstr → Json
   | .movSmall r v => Json.arr #["movSmall", r, jint v]
   | .movz r c => Json.arr #["movz", r, jnat c]
   | .movk r c s => Json.arr #["movk", r, jnat c, jnat s]
+  | .movn r c => Json.arr #["movn", r, jnat c]
   | .adrp r s => Json.arr #["adrp", r, s]
   | .addLo12 r s => Json.arr #["addLo12", r, s]
   | .strSlot r s => Json.arr #["strSlot", r, jnat s]
@@ -195,6 +196,7 @@ def cinstrOf (j : Json) : Except String CInstr := do
   | "movSmall" => .ok (.movSmall (← s 1) (← z 2))
   | "movz" => .ok (.movz (← s 1) (← n 2))
   | "movk" => .ok (.movk (← s 1) (← n 2) (← n 3))
+  | "movn" => .ok (.movn (← s 1) (← n 2))
   | "adrp" => .ok (.adrp (← s 1) (← s 2))
   | "addLo12" => .ok (.addLo12 (← s 1) (← s 2))
   | "strSlot" => .ok (.strSlot (← s 1) (← n 2))
